@@ -18,6 +18,7 @@ RULE = ('one document over the full tag vocabulary (merge-control tags and metad
 BUDGET = {'quick': (4, 300), 'thorough': (16, 5000)}
 SHRINK_CAP = {'quick': 300, 'thorough': 3000}
 ASSUMPTIONS = ['the document is dumped as parsed (before preprocessing), re-parsed under the same file name',
+               'documents in which an aliased node is adopted by parents handing down different inherited flags are skipped (not expressible as text)',
                'evaluation is compared for documents without structural nodes (includes / !prev / !append need files or older stages)']
 
 
@@ -107,6 +108,10 @@ def run_case(case):
     import awesomeyaml.yaml as ayyaml
     text = tdoc.render(case['doc'])
     src = f'\noriginal document:\n{text}'
+    if tdoc.alias_context_conflict(case['doc']):
+        # one node object adopted (through yaml aliases) by parents that hand down different inherited flags: what the document means
+        # depends on adoption order, and no text can express it - not what "dump then parse" is about
+        return Outcome(labels=['skip-shared-node-under-differently-flagged-parents'])
     try:
         D = parse_one(text)
     except Exception as e:      # noqa
